@@ -1,10 +1,11 @@
 (* C28 — A signature is reported as covering the document only if it covers every byte.
    Property theorems only; each is closed by an exact lemma and followed by Print Assumptions.
 
-   Reading guide.  docModified verdict fsize f arr contents increment dts is the transcription of
+   Reading guide.  docModified verdict fsize f arr contents increment dts sf is the transcription of
    validateSignature's DocModified result (pkg/pdfcpu/sign.go) for a signature whose dictionary has
    /ByteRange arr and /Contents value contents, found in xref increment [increment], in the file f
-   (fsize = ctx.Read.FileSize).  TFalse = "document not modified".  verdict is the external crypto
+   (fsize = ctx.Read.FileSize); dts = the field was classified as document time stamp by /Type
+   /DocTimeStamp; sf = the /SubFilter (an input the revision logic does not consult).  TFalse = "document not modified".  verdict is the external crypto
    (arbitrary).  int64s arr: the array elements are Go ints.  0 <= increment: increment numbers
    are counts. *)
 From Coq Require Import ZArith NArith List Bool.
@@ -17,9 +18,9 @@ Open Scope Z_scope.
    upper-cased) is the /Contents value, the signature is in the current revision (or is a
    document time stamp), and EVERY byte offset of f lies in a signed range or in that gap. *)
 Theorem C28_unmodified_implies_full_cover :
-  forall verdict f arr contents increment dts,
+  forall verdict f arr contents increment dts sf,
   int64s arr -> 0 <= increment ->
-  docModified verdict (lenZ f) f arr contents increment dts = TFalse ->
+  docModified verdict (lenZ f) f arr contents increment dts sf = TFalse ->
   exists l1 o2 l2 c inner,
     arr = [0; l1; o2; l2] /\ contents = Some c /\
     0 <= l1 /\ l1 + 2 <= o2 /\ 0 <= l2 /\ o2 + l2 = lenZ f /\
@@ -31,62 +32,75 @@ Print Assumptions C28_unmodified_implies_full_cover.
 
 (* appended bytes: the file is longer than the end of the second range *)
 Theorem C28_appended_bytes_not_unmodified :
-  forall verdict f contents increment dts, 0 <= increment -> forall o1 l1 o2 l2,
+  forall verdict f contents increment dts sf, 0 <= increment -> forall o1 l1 o2 l2,
   int64s [o1; l1; o2; l2] -> o2 + l2 < lenZ f ->
-  docModified verdict (lenZ f) f [o1; l1; o2; l2] contents increment dts <> TFalse.
+  docModified verdict (lenZ f) f [o1; l1; o2; l2] contents increment dts sf <> TFalse.
 Proof. exact appended_bytes_not_unmodified. Qed.
 Print Assumptions C28_appended_bytes_not_unmodified.
 
 Theorem C28_truncated_file_not_unmodified :
-  forall verdict f contents increment dts, 0 <= increment -> forall o1 l1 o2 l2,
+  forall verdict f contents increment dts sf, 0 <= increment -> forall o1 l1 o2 l2,
   int64s [o1; l1; o2; l2] -> lenZ f < o2 + l2 ->
-  docModified verdict (lenZ f) f [o1; l1; o2; l2] contents increment dts <> TFalse.
+  docModified verdict (lenZ f) f [o1; l1; o2; l2] contents increment dts sf <> TFalse.
 Proof. exact truncated_file_not_unmodified. Qed.
 Print Assumptions C28_truncated_file_not_unmodified.
 
 (* a later incremental update exists: the signature sits in an older increment *)
 Theorem C28_later_increment_not_unmodified :
-  forall verdict f contents increment dts, 0 <= increment -> forall arr,
+  forall verdict f contents increment dts sf, 0 <= increment -> forall arr,
   int64s arr -> 0 < increment -> dts = false ->
-  docModified verdict (lenZ f) f arr contents increment dts <> TFalse.
+  docModified verdict (lenZ f) f arr contents increment dts sf <> TFalse.
 Proof. exact later_increment_not_unmodified. Qed.
 Print Assumptions C28_later_increment_not_unmodified.
 
+(* a time-stamp /SubFilter alone gives no exemption: without /Type /DocTimeStamp a signature in an
+   older increment is never reported unmodified, whatever its SubFilter *)
+Theorem C28_timestamp_subfilter_without_type_not_unmodified :
+  forall verdict f contents increment arr,
+  int64s arr -> 0 < increment ->
+  docModified verdict (lenZ f) f arr contents increment false SF_RFC3161 <> TFalse.
+Proof.
+  intros verdict f contents increment arr HI Hlt.
+  apply later_increment_not_unmodified; try assumption; try reflexivity.
+  apply Z.lt_le_incl. exact Hlt.
+Qed.
+Print Assumptions C28_timestamp_subfilter_without_type_not_unmodified.
+
 Theorem C28_shifted_start_not_unmodified :
-  forall verdict f contents increment dts, 0 <= increment -> forall o1 l1 o2 l2,
+  forall verdict f contents increment dts sf, 0 <= increment -> forall o1 l1 o2 l2,
   int64s [o1; l1; o2; l2] -> o1 <> 0 ->
-  docModified verdict (lenZ f) f [o1; l1; o2; l2] contents increment dts <> TFalse.
+  docModified verdict (lenZ f) f [o1; l1; o2; l2] contents increment dts sf <> TFalse.
 Proof. exact shifted_start_not_unmodified. Qed.
 Print Assumptions C28_shifted_start_not_unmodified.
 
 (* overlapping / out-of-order / swapped ranges *)
 Theorem C28_overlapping_ranges_not_unmodified :
-  forall verdict f contents increment dts, 0 <= increment -> forall o1 l1 o2 l2,
+  forall verdict f contents increment dts sf, 0 <= increment -> forall o1 l1 o2 l2,
   int64s [o1; l1; o2; l2] -> o2 < o1 + l1 + 2 ->
-  docModified verdict (lenZ f) f [o1; l1; o2; l2] contents increment dts <> TFalse.
+  docModified verdict (lenZ f) f [o1; l1; o2; l2] contents increment dts sf <> TFalse.
 Proof. exact overlapping_ranges_not_unmodified. Qed.
 Print Assumptions C28_overlapping_ranges_not_unmodified.
 
 Theorem C28_negative_value_not_unmodified :
-  forall verdict f contents increment dts, 0 <= increment -> forall arr,
+  forall verdict f contents increment dts sf, 0 <= increment -> forall arr,
   int64s arr -> Exists (fun z => z < 0) arr ->
-  docModified verdict (lenZ f) f arr contents increment dts <> TFalse.
+  docModified verdict (lenZ f) f arr contents increment dts sf <> TFalse.
 Proof. exact negative_value_not_unmodified. Qed.
 Print Assumptions C28_negative_value_not_unmodified.
 
 Theorem C28_wrong_arity_not_unmodified :
-  forall verdict f contents increment dts, 0 <= increment -> forall arr,
+  forall verdict f contents increment dts sf, 0 <= increment -> forall arr,
   int64s arr -> length arr <> 4%nat ->
-  docModified verdict (lenZ f) f arr contents increment dts <> TFalse.
+  docModified verdict (lenZ f) f arr contents increment dts sf <> TFalse.
 Proof. exact wrong_arity_not_unmodified. Qed.
 Print Assumptions C28_wrong_arity_not_unmodified.
 
 (* the excluded gap is not exactly the /Contents token *)
 Theorem C28_gap_mismatch_not_unmodified :
-  forall verdict f contents increment dts, 0 <= increment -> forall o1 l1 o2 l2 c,
+  forall verdict f contents increment dts sf, 0 <= increment -> forall o1 l1 o2 l2 c,
   int64s [o1; l1; o2; l2] -> contents = Some c ->
   contentsGapMatches (slice f (o1 + l1) (o2 - (o1 + l1))) c = false ->
-  docModified verdict (lenZ f) f [o1; l1; o2; l2] contents increment dts <> TFalse.
+  docModified verdict (lenZ f) f [o1; l1; o2; l2] contents increment dts sf <> TFalse.
 Proof. exact gap_mismatch_not_unmodified. Qed.
 Print Assumptions C28_gap_mismatch_not_unmodified.
 
@@ -132,11 +146,11 @@ Example C28_nonvacuous :
   let c := Some [52; 65]%N in
   let ok := fun _ : list N => TFalse in
   int64s [0; 2; 6; 2] /\
-  docModified ok (lenZ f) f [0; 2; 6; 2] c 0 false = TFalse /\
-  docModified ok (lenZ (f ++ [10%N])) (f ++ [10%N]) [0; 2; 6; 2] c 0 false = TUnknown /\
-  docModified ok (lenZ f) f [0; 2; 6; 2] c 1 false = TUnknown /\
-  docModified ok (lenZ f) f [0; 1; 6; 2] c 0 false = TUnknown /\
-  docModified ok (lenZ f) f [0; 2; 7; 1] c 0 false = TUnknown /\
+  docModified ok (lenZ f) f [0; 2; 6; 2] c 0 false SF_PKCS7Detached = TFalse /\
+  docModified ok (lenZ (f ++ [10%N])) (f ++ [10%N]) [0; 2; 6; 2] c 0 false SF_PKCS7Detached = TUnknown /\
+  docModified ok (lenZ f) f [0; 2; 6; 2] c 1 false SF_PKCS7Detached = TUnknown /\
+  docModified ok (lenZ f) f [0; 1; 6; 2] c 0 false SF_PKCS7Detached = TUnknown /\
+  docModified ok (lenZ f) f [0; 2; 7; 1] c 0 false SF_PKCS7Detached = TUnknown /\
   signedData f [0; 2; 6; 2] c = Ok [65; 66; 67; 68]%N.
 Proof.
   split.
